@@ -148,10 +148,12 @@ func main() {
 		selftest()
 		return
 	}
-	if *family == "conc-record" || *family == "stress" {
+	if *family == "conc-record" || *family == "stress" || *family == "trace-record" {
 		var r Result
 		if *family == "conc-record" {
 			r = concRecord(*concFlagOut, *concMaxEv)
+		} else if *family == "trace-record" {
+			r = traceRecord(*seedFlag)
 		} else {
 			r = runStress(*seedFlag)
 		}
